@@ -44,26 +44,37 @@ def lookupBorrow (tok : String) : M BorrowInfo := queryPos (fun _ bor => optRes 
 def commitSupply (tok : String) (info : SupplyInfo) : M Unit :=
   modify (fun s => { s with supplies := AList.set s.supplies tok info, supAmtC := .fresh, supC := .fresh, collC := .fresh })
 
-/-- `supply(token, amount, collateral)` -/
-def supply (tok : String) (amount : Rat) (coll : Bool) : M Unit := do
-  guardOpen env
-  require (amount > 0) .zeroAmount
+/-- `if collateral: require(risk[token].usageAsCollateralEnabled, …)` -/
+def checkCanCollateral (tok : String) (coll : Bool) : M Unit :=
   if coll then do
     let r ← ofRes (env.riskOf tok)
     require r.canColl .cannotCollateral
   else pure ()
-  let st ← ofRes (env.statusOf tok)
-  let poolAmt ← ofRes (divE cx amount st.liqIdx)
-  let old ← queryPos (fun sup _ => .ok (AList.get? sup tok))
+
+/-- `if token in self._supplies: require(self._supplies[token].collateral == collateral, …)` -/
+def checkFlag (old : Option SupplyInfo) (coll : Bool) : M Unit :=
   match old with
   | some info => require (info.coll == coll) .flagMismatch
   | none => pure ()
+
+/-- the entry `supply` writes: `base_amount += pool_amount` on the existing one, or a new one -/
+def supplyEntry (old : Option SupplyInfo) (poolAmt : Rat) (coll : Bool) (idx : Rat) : SupplyInfo :=
+  match old with
+  | some info => { info with base := cx.add info.base poolAmt }
+  | none => { base := cx.add 0 poolAmt, coll := coll, beginIdx := idx }
+
+/-- `supply(token, amount, collateral)` -/
+def supply (tok : String) (amount : Rat) (coll : Bool) : M Unit := do
+  guardOpen env
+  require (amount > 0) .zeroAmount
+  checkCanCollateral env tok coll
+  let st ← ofRes (env.statusOf tok)
+  let poolAmt ← ofRes (divE cx amount st.liqIdx)
+  let old ← queryPos (fun sup _ => .ok (AList.get? sup tok))
+  checkFlag old coll
   walletDebit cx tok amount
-  let info : SupplyInfo := match old with
-    | some info => { info with base := cx.add info.base poolAmt }
-    | none => { base := cx.add 0 poolAmt, coll := coll, beginIdx := st.liqIdx }
-  commitSupply tok info
-  record (.supply tok amount coll (cx.mul info.base st.liqIdx))
+  commitSupply tok (supplyEntry cx old poolAmt coll st.liqIdx)
+  record (.supply tok amount coll (cx.mul (supplyEntry cx old poolAmt coll st.liqIdx).base st.liqIdx))
   setUpdated
 
 /-! ### change_collateral -/
@@ -135,6 +146,14 @@ def trialHealthFactor (tok : String) (info : SupplyInfo) (trialBase : Rat) : M X
   modify (trialSet tok { info with base := trialBase })
   finally' (healthFactor cx env) (trialSet tok info)
 
+/-- the `if self._supplies[token].collateral:` block of `withdraw` -/
+def checkWithdrawHf (tok : String) (info : SupplyInfo) (amount idx : Rat) : M Unit :=
+  if info.coll then do
+    let d ← ofRes (divE cx amount idx)
+    let hf ← trialHealthFactor cx env tok info (cx.sub info.base d)
+    require (!(hf.ltR Gen.aaveHfThreshold)) .hfLow
+  else pure ()
+
 def withdraw (tok : String) (amount? : Option Rat) : M Unit := do
   guardOpen env
   let st ← ofRes (env.statusOf tok)
@@ -143,11 +162,7 @@ def withdraw (tok : String) (amount? : Option Rat) : M Unit := do
   require (amount > 0) .zeroAmount
   require (amount ≤ sv.amount) .exceedBalance
   let info ← lookupSupply tok
-  if info.coll then do
-    let d ← ofRes (divE cx amount st.liqIdx)
-    let hf ← trialHealthFactor cx env tok info (cx.sub info.base d)
-    require (!(hf.ltR Gen.aaveHfThreshold)) .hfLow
-  else pure ()
+  checkWithdrawHf cx env tok info amount st.liqIdx
   let fin ← subSupplyAmount cx env tok amount
   walletCredit cx tok amount
   record (.withdraw tok amount (cx.mul fin st.liqIdx))
@@ -167,11 +182,21 @@ def commitBorrow (tok : String) (info : BorrowInfo) (amount : Rat) : M Unit :=
                             wallet := Wallet.credit cx.toNumCtx s.wallet tok amount,
                             borAmtC := .fresh, borC := .fresh })
 
+/-- `if amount is None: amount = self.get_max_borrow_amount(token)` -/
+def borrowAmountOf (tok : String) (amount? : Option Rat) : M Rat :=
+  match amount? with
+  | some a => pure a
+  | none => maxBorrowAmount cx env tok
+
+/-- the entry `borrow` writes -/
+def borrowEntry (old : Option BorrowInfo) (base idx : Rat) : BorrowInfo :=
+  match old with
+  | some info => { info with base := cx.add info.base base }
+  | none => { base := cx.add 0 base, beginIdx := idx }
+
 def borrow (tok : String) (amount? : Option Rat) : M Unit := do
   guardOpen env
-  let amount ← match amount? with
-    | some a => pure a
-    | none => maxBorrowAmount cx env tok
+  let amount ← borrowAmountOf cx env tok amount?
   require (amount > 0) .zeroAmount
   let st ← ofRes (env.statusOf tok)
   let r ← ofRes (env.riskOf tok)
@@ -190,11 +215,8 @@ def borrow (tok : String) (amount? : Option Rat) : M Unit := do
   require (needed ≤ collBal) .cannotCover
   let base ← ofRes (divE cx amount st.varIdx)
   let old ← queryPos (fun _ bor => .ok (AList.get? bor tok))
-  let info : BorrowInfo := match old with
-    | some info => { info with base := cx.add info.base base }
-    | none => { base := cx.add 0 base, beginIdx := st.varIdx }
-  commitBorrow cx tok info amount
-  record (.borrow tok amount (cx.mul info.base st.varIdx))
+  commitBorrow cx tok (borrowEntry cx old base st.varIdx) amount
+  record (.borrow tok amount (cx.mul (borrowEntry cx old base st.varIdx).base st.varIdx))
   setUpdated
 
 /-! ### repay -/
@@ -216,24 +238,32 @@ def repayCollateralCap (tok ctok : String) (amount0 : Rat) : M Rat := do
   let sup ← getSupply cx env ctok
   if need > sup.amount then ofRes (swapAmount cx env ctok tok sup.amount) else pure amount0
 
+/-- the amount to pay back: as asked, or capped by the collateral when repaying with collateral -/
+def repayAmountOf (tok ctok : String) (amount0 : Rat) (withColl : Bool) : M Rat :=
+  if withColl then repayCollateralCap cx env tok ctok amount0 else pure amount0
+
+/-- where the repayment comes from: the collateral supply (`__sub_supply_amount`) or the wallet -/
+def takeRepayment (tok ctok : String) (payback : Rat) (withColl : Bool) : M Unit :=
+  if withColl then do
+    let inColl ← ofRes (swapAmount cx env tok ctok payback)
+    let _ ← subSupplyAmount cx env ctok inColl
+    pure ()
+  else walletDebit cx tok payback
+
 def repay (tok : String) (amount? : Option Rat) (withColl : Bool) (collTok? : Option String) : M Unit := do
   guardOpen env
   let st ← ofRes (env.statusOf tok)
   let bv ← getBorrow cx env tok
   let amount0 := amount?.getD bv.amount
   let ctok := collTok?.getD tok
-  let payback ← if withColl then repayCollateralCap cx env tok ctok amount0 else pure amount0
+  let payback ← repayAmountOf cx env tok ctok amount0 withColl
   let pbBase ← ofRes (divE cx payback st.varIdx)
   require (pbBase > 0) .zeroAmount
   let info ← lookupBorrow tok
   require (info.base > 0) .noDebt
   let rr ← ofRes (quantE Gen.aaveRepayRoundDigits (cx.sub info.base pbBase))
   require (rr ≥ 0) .exceedDebt
-  if withColl then do
-    let inColl ← ofRes (swapAmount cx env tok ctok payback)
-    let _ ← subSupplyAmount cx env ctok inColl
-    pure ()
-  else walletDebit cx tok payback
+  takeRepayment cx env tok ctok payback withColl
   let debt ← subBorrowAmount cx env tok payback
   record (.repay tok payback (cx.mul debt st.varIdx))
   setUpdated
